@@ -263,6 +263,63 @@ template <int K> static void rebuild_h()
     vf_observe_u64(K);
 }
 
+// the same on geometry-consistent states (extents 1..BND, the storage the library allocates): the rebuilt field also LOOKS UP the
+// same value at every lattice coordinate (a member the accessors do not report, left unset by one constructor, shows here)
+template <int K, size_t BND> static void rebuild_geo_h()
+{
+    using B = typename stack<K>::type;
+    using O = typename B::owning_data_t;
+    auto o = vf::blank_c<B>(BND);
+    vf::sym(o);
+    field<B> f(make_parameter_pack(std::move(o)));
+    {
+        O r(rebuild1<O>(f.backend()));
+        vf_assert(vf::same(r, f.backend()) && vf::same_lookup(r, f.backend()), 1);
+    }
+    {
+        auto t = pack_tuple(f.backend());
+        field<B> g(std::apply([](auto &&... xs) { return make_parameter_pack(std::forward<decltype(xs)>(xs)...); }, std::move(t)));
+        vf_assert(vf::same(g.backend(), f.backend()) && vf::same_lookup(g.backend(), f.backend()), 2);
+    }
+    {
+        O r(rebuild3<O>(f.backend()));
+        vf_assert(vf::same(r, f.backend()) && vf::same_lookup(r, f.backend()), 3);
+    }
+    vf_observe_u64(K);
+}
+
+// ... and with the ORIGINAL built by a different route than the rebuild (conversion from a row-major field, which goes through the
+// converting constructor of the layout layer): the field rebuilt from get_configuration() + get_backend() through the
+// (configuration, backend) constructor looks up the same value as the original at every lattice coordinate
+template <int L, size_t BND> static void rebuild_conv_h()
+{
+    using S = backend::strided<vector::size2, backend::array<vector::float1>>;
+    using T = std::conditional_t<L == 0, S, std::conditional_t<L == 1, backend::morton<vector::size2, backend::array<vector::float1>>,
+                                                                backend::hilbert<vector::size2, backend::array<vector::float1>>>>;
+    using O = typename T::owning_data_t;
+    auto o = vf::blank_c<S>(BND);
+    vf::sym(o);
+    field<S> src(make_parameter_pack(std::move(o)));
+    field<T> f0(src);
+    {
+        O r(rebuild1<O>(f0.backend()));
+        vf_assert(vf::same(r, f0.backend()) && vf::same_lookup(r, f0.backend()), 1);
+    }
+    {
+        O r(rebuild3<O>(f0.backend()));
+        vf_assert(vf::same(r, f0.backend()) && vf::same_lookup(r, f0.backend()), 3);
+    }
+    {
+        // through a file as well (the reader uses the same constructor)
+        std::ostream * os = vf_ostream();
+        f0.dump(*os);
+        std::istream * is = vf_istream_from(os, vf_stream_len(os), VF_NEVER);
+        field<T> g(*is);
+        vf_assert(vf::same_lookup(g.backend(), f0.backend()), 2);
+    }
+    vf_observe_u64(L);
+}
+
 // the array backend with a non-default index type: the size it is constructed with is the size it reports and allocates,
 // also when that size does not fit the index type (sizes around 2^8 and 2^16; the configuration is an nd_size of size_t)
 template <class I> static void array_index_h()
